@@ -16,14 +16,14 @@ import (
 )
 
 type wireType struct {
-	T   string     `json:"t"`
-	N   int        `json:"n,omitempty"`
-	Has bool       `json:"has,omitempty"`
-	L   string     `json:"l,omitempty"`
-	E   *wireType  `json:"e,omitempty"`
-	Es  []wireType `json:"es,omitempty"`
-	Kind string    `json:"kind,omitempty"` // palcont: blocks | biomes
-	Rb   int       `json:"rb,omitempty"`   // palcont: registry bits
+	T    string     `json:"t"`
+	N    int        `json:"n,omitempty"`
+	Has  bool       `json:"has,omitempty"`
+	L    string     `json:"l,omitempty"`
+	E    *wireType  `json:"e,omitempty"`
+	Es   []wireType `json:"es,omitempty"`
+	Kind string     `json:"kind,omitempty"` // palcont: blocks | biomes
+	Rb   int        `json:"rb,omitempty"`   // palcont: registry bits
 }
 
 func (t wireType) String() string { b, _ := json.Marshal(t); return string(b) }
